@@ -139,6 +139,8 @@ def run_case(ctx, kind_, idx):
                     return
                 ctx.nontriv("c14", idx)
             elif which == "shift_scale":
+                fpw = fp_watch(ctx)
+                fpw.__enter__()
                 wv = Weaver(x.copy(), y.copy())
                 sx = float(rng.normal(0, 10)) if rng.integers(0, 2) else int(rng.integers(-5, 6))
                 sy = float(rng.normal(0, 10))
@@ -147,7 +149,10 @@ def run_case(ctx, kind_, idx):
                 order = list(rng.permutation(4))
                 ex, ey = x.copy(), y.copy()
                 ops = []
+                chain = bool(rng.integers(0, 4) == 0)
                 for o in order:
+                    if chain and o >= 2:
+                        continue
                     if o == 0:
                         wv.shift_x(sx); ex = ex + sx; ops.append(["shift_x", sx])
                     elif o == 1:
@@ -156,10 +161,28 @@ def run_case(ctx, kind_, idx):
                         wv.scale_x(cx); ex = ex * cx; ops.append(["scale_x", cx])
                     else:
                         wv.scale_y(cy); ey = ey * cy; ops.append(["scale_y", cy])
+                if chain:
+                    # a chain of unit conversions by whole-number factors held in small NumPy integer types (x 60 x 60
+                    # x 24, x 8 x 125): every factor fits its type, their product does not
+                    for _ in range(int(rng.integers(2, 5))):
+                        dt = [np.int8, np.uint8, np.int16, np.int8][int(rng.integers(0, 4))]
+                        c = dt(int(rng.choice([60, 24, 100, 125, 16, 8, 12])))
+                        ax = "x" if rng.integers(0, 2) else "y"
+                        getattr(wv, "scale_" + ax)(c)
+                        if ax == "x":
+                            ex = ex * float(c)
+                        else:
+                            ey = ey * float(c)
+                        ops.append(["scale_" + ax, int(c), np.dtype(dt).name])
                 info["ops"] = ops
                 gx, gy = wv.get()
+                fpw.__exit__(None, None, None)
                 ctx.judged()
                 ctx.monitor("c14:shift_scale")
+                if fpw.tripped and np.all(np.isfinite(ex)) and np.all(np.isfinite(ey)):
+                    # what a caller running with warnings as errors gets instead of the shifted / scaled series
+                    ctx.violation("floating_point_warning_on_ordinary_input", cid, {"warnings": fpw.tripped[:3], "case": info})
+                    return
                 if not (np.array_equal(gx, ex) and np.array_equal(gy, ey)):
                     ctx.violation("shift_scale_not_elementwise", cid, {"got": [gx, gy], "want": [ex, ey], "case": info})
                     return
